@@ -291,6 +291,6 @@ def args_body(c):
 
 
 PROP = Prop("C16", [
-    Test("tensor", tensor_body, quick=2500, thorough=30000, shard_size=300),
-    Test("args", args_body, quick=2500, thorough=30000, shard_size=300),
+    Test("tensor", tensor_body, quick=8000, thorough=30000, shard_size=300),
+    Test("args", args_body, quick=8000, thorough=30000, shard_size=300),
 ], RULE, assumptions=["closed-form Jacobians and Hessians of the generated function family (computed with raw NumPy)"])
